@@ -599,6 +599,18 @@ C20_SPECIAL = [
     ("copy_clone_generic", "Copy, Clone", "pub enum X<T> { A(::core::marker::PhantomData<T>), B(*const T), C(fn(T) -> T) }"),
     ("impl_ops_generic_self", "Add, AddAssign", "impl<T: ::core::clone::Clone> ::core::ops::Add<&G<T>> for &G<T> where G<T>: ::core::clone::Clone { type Output = G<T>; fn add(self, _r: &G<T>) -> G<T> { self.clone() } }\n#[derive(Clone)] pub struct G<T>(pub T);"),
     ("impl_ops_where_self", "Sub", "impl ::core::ops::Sub<Y> for Y where Self: ::core::clone::Clone { type Output = Self; fn sub(self, _r: Y) -> Self { self } }\n#[derive(Clone)] pub struct Y(pub u8);"),
+    # (op= is only requested where Output is the self type as derive_ex sees it: a reference with a named lifetime is an opaque by-value operand)
+    # user impls whose reference operands carry a NAMED lifetime that other parts of the impl depend on (Output borrows it, the other operand
+    # carries it, the referent is unsized): whatever forms derive_ex decides to generate must type-check
+    ("impl_ops_named_lt_output_borrows", "Add", "impl<'a> ::core::ops::Add<&'a Step> for Cursor<'a> { type Output = Cursor<'a>; fn add(self, r: &'a Step) -> Cursor<'a> { Cursor(r, self.1 + 1) } }\n"
+     "#[derive(Clone)] pub struct Step(pub u8); #[derive(Clone)] pub struct Cursor<'a>(pub &'a Step, pub u8);"),
+    ("impl_ops_named_lt_both", "Sub", "impl<'a> ::core::ops::Sub<&'a N> for &'a N { type Output = Pair<'a>; fn sub(self, r: &'a N) -> Pair<'a> { Pair(self, r) } }\n"
+     "#[derive(Clone)] pub struct N(pub u8); pub struct Pair<'a>(pub &'a N, pub &'a N);"),
+    ("impl_ops_named_lt_unsized_rhs", "Add, AddAssign", "impl<'a> ::core::ops::Add<&'a str> for X { type Output = X; fn add(self, r: &'a str) -> X { X(self.0 + r.len()) } }\n#[derive(Clone)] pub struct X(pub usize);"),
+    ("impl_ops_named_lt_slice_rhs", "BitOr", "impl<'a, T: ::core::clone::Clone> ::core::ops::BitOr<&'a [T]> for &'a V<T> { type Output = V<T>; fn bitor(self, r: &'a [T]) -> V<T> { let mut v = self.0.clone(); v.extend_from_slice(r); V(v) } }\n"
+     "#[derive(Clone)] pub struct V<T>(pub ::std::vec::Vec<T>);"),
+    ("impl_ops_named_lt_plain", "Mul", "impl<'a> ::core::ops::Mul<&'a Y> for &'a Y { type Output = Y; fn mul(self, r: &'a Y) -> Y { Y(self.0 * r.0) } }\n#[derive(Clone)] pub struct Y(pub u8);"),
+    ("impl_ops_static_lt", "Add", "impl ::core::ops::Add<&'static str> for Z { type Output = Z; fn add(self, r: &'static str) -> Z { Z(self.0 + r.len()) } }\n#[derive(Clone)] pub struct Z(pub usize);"),
 ]
 
 
